@@ -87,6 +87,7 @@ func init() {
 func Reset() {
 	table = map[string]*Term{}
 	extractMemo = map[[3]int]*Term{}
+	resetVars()
 	nextID = 1
 	True = mk(&Term{K: KTrue})
 	False = mk(&Term{K: KFalse})
